@@ -63,6 +63,7 @@ impl Prop for C01 {
                 prof("signals", 32_000),
                 prof("candidates", 40_000),
                 prof("many", 2_000),
+                prof("capi", 8_000),
             ],
             Tier::Thorough => vec![
                 prof("const", 800_000),
@@ -71,6 +72,7 @@ impl Prop for C01 {
                 prof("signals", 400_000),
                 prof("candidates", 400_000),
                 prof("many", 30_000),
+                prof("capi", 100_000),
             ],
         }
     }
@@ -90,6 +92,11 @@ impl Prop for C01 {
                     c
                 })
                 .boxed();
+        }
+        if profile == "capi" {
+            // totality for C callers: unknown and aliasing ids, empty and long batches, through the C API
+            let hp = HistParams { max_calls: 30, max_batch: 12, ..HistParams::default() };
+            return crate::props::capi_case(0..=5, |mp| { mp.p_counter = 0.5; mp.p_limit = 0.5; mp.w_signal = 2; mp.w_end = 2; }, &hp);
         }
         if profile == "many" {
             // more machines than a machine word has bits; signals, ends, counters and limits
@@ -115,6 +122,9 @@ impl Prop for C01 {
         let n = machines.len();
         if n > 64 {
             obs.hit("more_than_64_machines");
+        }
+        if case.seed == crate::props::CAPI_MARK {
+            crate::props::capi_pass(case, obs)?;
         }
         let total_events: u64 = case.calls.iter().map(|c| c.events.len() as u64 + 1).sum();
         let budget = case.words.len() as u64 + 100_000 + 20_000 * total_events * (n as u64 + 1);
@@ -217,6 +227,7 @@ impl Prop for C01 {
     fn required_classes() -> Vec<&'static str> {
         vec![
             "more_than_64_machines",
+            "c_api_history",
             "returned_action",
             "unknown_id",
             "backwards_clock",
